@@ -3464,6 +3464,7 @@ def WHistOk (n : Nat) : List WEv → Prop
   | .told _ d _ :: es => d < n ∧ WHistOk n es
   | .pen _ _ _ :: es => WHistOk n es
   | .policy _ _ :: es => WHistOk n es
+  | .restore _ _ _ :: _ => False   -- a reload hand-over is not a sample history (see `winv_restore`)
 
 /-- a latency a set has recorded is backed by the dialer's collection (under the group's policy) -/
 def Link (w : World) : Prop :=
@@ -3567,6 +3568,7 @@ theorem winv_step {n : Nat} {w : World} {e : WEv} (hw : WInv n w) (ok : WHistOk 
   | pen t d v =>
     show WInv n { w with pens := upd w.pens t (upd (w.pens t) d v) }
     exact ⟨hw.ginv, hw.link, hw.hn⟩
+  | restore d cs al => exact ok.elim
   | policy p fi =>
     show WInv n { w with g := (gSetPolicy w.g p fi (fun t d => w.snap p t d)).1 }
     have hg' : GInv (gSetPolicy w.g p fi (fun t d => w.snap p t d)).1 :=
@@ -3618,12 +3620,14 @@ theorem winv_run {n : Nat} (h : List WEv) : ∀ (w : World), WInv n w → WHistO
       | told t d a => exact ⟨ok.1, trivial⟩
       | pen t d v => trivial
       | policy p fi => trivial
+      | restore d cs al => exact ok.elim
     have okr : WHistOk n es := by
       cases e with
       | sample t d l => exact ok.2.2
       | told t d a => exact ok.2
       | pen t d v => exact ok
       | policy p fi => exact ok
+      | restore d cs al => exact ok.elim
     exact ih (stepW w e) (winv_step hw ok1) okr
 
 
@@ -3835,5 +3839,222 @@ theorem selectAll_complete (g : Group) (t : NetType) (strict : Bool) (excl : Opt
     | noDialers => cases hl
     | outOfRange => cases hl
     | unsupported => cases hl
+
+
+/-! ### reload hand-over: what survives -/
+
+theorem winv_told {n : Nat} {w : World} (hw : WInv n w) (t : Nat) {d : Nat} (a : Bool) (hd : d < n) :
+    WInv n (toldStep w t d a).1 := by
+  show WInv n { w with g := (gNotify w.g t d a (w.snap w.g.policy t d)).1 }
+  exact winv_notify hw a hd (by
+    intro h; unfold World.snap; rw [snapshot_isSome_pen _ _ (w.pens t d) 0]; exact h)
+
+theorem toldStep_frame (w : World) (t d : Nat) (a : Bool) :
+    (toldStep w t d a).1.colls = w.colls ∧ (toldStep w t d a).1.pens = w.pens := ⟨rfl, rfl⟩
+
+/-- the side condition under which a restored snapshot keeps `mono`: wherever a set has recorded a
+latency for `d` (under the group's policy), the restored collection still has one -/
+def RestoreOk (w : World) (d : Nat) (cs : Nat → Coll) : Prop :=
+  w.g.hasSets = true → ∀ t, t < 6 → (w.g.sets t).lat d ≠ none →
+    ((cs t).snapshot w.g.policy 0).isSome = true
+
+theorem winv_fold_told {n : Nat} {d : Nat} (al : Nat → Bool) (hd : d < n) (ts : List Nat) :
+    ∀ (acc : World × List GCb), WInv n acc.1 →
+      WInv n (ts.foldl (fun (acc : World × List GCb) t =>
+        let r := toldStep acc.1 t d (al t)
+        (r.1, acc.2 ++ r.2)) acc).1 := by
+  induction ts with
+  | nil => intro acc h; exact h
+  | cons t ts ih =>
+    intro acc h
+    simp only [List.foldl_cons]
+    exact ih _ (winv_told h t (al t) hd)
+
+theorem winv_restore {n : Nat} {w : World} (hw : WInv n w) {d : Nat} (hd : d < n) (cs : Nat → Coll)
+    (al : Nat → Bool) (ok : RestoreOk w d cs) : WInv n (stepW w (.restore d cs al)) := by
+  unfold stepW stepWcb
+  apply winv_fold_told al hd restoreOrder
+  refine ⟨hw.ginv, ?_, hw.hn⟩
+  intro hh t' d' hl
+  simp only at hh hl ⊢
+  by_cases ht : t' < 6
+  · simp only [ht, if_true, upd]
+    by_cases hdd : d' = d
+    · subst hdd
+      simp only [if_true]
+      exact ok hh t' ht hl
+    · simp only [hdd, if_false]
+      exact hw.link hh t' d' hl
+  · simp only [ht, if_false]
+    exact hw.link hh t' d' hl
+
+theorem winv_floor {n : Nat} {w : World} (hw : WInv n w) (fb : Nat → Option Nat)
+    (hfb : ∀ t d, fb t = some d → d < n) : WInv n (floorW w fb).1 := by
+  unfold floorW
+  have key : ∀ (ts : List Nat) (acc : World × List GCb), WInv n acc.1 →
+      WInv n (ts.foldl (floorStep fb) acc).1 := by
+    intro ts
+    induction ts with
+    | nil => intro acc h; exact h
+    | cons t ts ih =>
+      intro acc h
+      simp only [List.foldl_cons]
+      apply ih
+      unfold floorStep
+      simp only
+      split
+      · cases hq : fb t with
+        | some d =>
+          simp only
+          exact winv_told h t true (hfb t d hq)
+        | none =>
+          simp only
+          by_cases hn : acc.1.g.n > 0
+          · simp only [hn, if_true]
+            have : 0 < n := by rw [← h.hn]; exact hn
+            exact winv_told h t true this
+          · simp only [hn, if_false]
+            exact h
+      · exact h
+  exact key (List.range 6) (w, []) hw
+
+/-! the hypothesis-free part (all full-strength selection theorems) across every world event -/
+
+structure WM (n : Nat) (w : World) : Prop where
+  gm : GMInv w.g
+  agree : Agree w.g
+  hn : w.g.n = n
+
+theorem wm_gstep {n : Nat} {w : World} (hw : WM n w) (e : GEv) (hm : GHistMem n [e]) (w' : World)
+    (hg : w'.g = stepG w.g e) : WM n w' := by
+  have hm' : GHistMem w.g.n [e] := by rw [hw.hn]; exact hm
+  obtain ⟨h1, h2⟩ := gminv_step hw.gm hm'
+  exact ⟨by rw [hg]; exact h1, by rw [hg]; exact agree_step hw.gm hw.agree hm', by rw [hg, h2]; exact hw.hn⟩
+
+theorem wm_told {n : Nat} {w : World} (hw : WM n w) (t : Nat) {d : Nat} (a : Bool) (hd : d < n) :
+    WM n (toldStep w t d a).1 :=
+  wm_gstep hw (.notify t d a (w.snap w.g.policy t d)) ⟨hd, trivial⟩ _ rfl
+
+/-- every world event names a member -/
+def WMem (n : Nat) : WEv → Prop
+  | .sample _ d _ => d < n
+  | .told _ d _ => d < n
+  | .pen _ _ _ => True
+  | .policy _ _ => True
+  | .restore d _ _ => d < n
+
+theorem wm_step {n : Nat} {w : World} {e : WEv} (hw : WM n w) (hm : WMem n e) : WM n (stepW w e) := by
+  cases e with
+  | sample t d l =>
+    exact wm_gstep (w := { w with colls := upd w.colls t (upd (w.colls t) d ((w.colls t d).append l)) })
+      ⟨hw.gm, hw.agree, hw.hn⟩ (.notify t d true _) ⟨hm, trivial⟩ _ rfl
+  | told t d a => exact wm_told hw t a hm
+  | pen t d v => exact ⟨hw.gm, hw.agree, hw.hn⟩
+  | policy p fi => exact wm_gstep hw (.setPolicy p fi (fun t d => w.snap p t d)) trivial _ rfl
+  | restore d cs al =>
+    unfold stepW stepWcb
+    have key : ∀ (ts : List Nat) (acc : World × List GCb), WM n acc.1 →
+        WM n (ts.foldl (fun (acc : World × List GCb) t =>
+          let r := toldStep acc.1 t d (al t)
+          (r.1, acc.2 ++ r.2)) acc).1 := by
+      intro ts
+      induction ts with
+      | nil => intro acc h; exact h
+      | cons t ts ih =>
+        intro acc h
+        simp only [List.foldl_cons]
+        exact ih _ (wm_told h t (al t) hm)
+    exact key restoreOrder _ ⟨hw.gm, hw.agree, hw.hn⟩
+
+theorem wm_floor {n : Nat} {w : World} (hw : WM n w) (fb : Nat → Option Nat)
+    (hfb : ∀ t d, fb t = some d → d < n) : WM n (floorW w fb).1 := by
+  unfold floorW
+  have key : ∀ (ts : List Nat) (acc : World × List GCb), WM n acc.1 →
+      WM n (ts.foldl (floorStep fb) acc).1 := by
+    intro ts
+    induction ts with
+    | nil => intro acc h; exact h
+    | cons t ts ih =>
+      intro acc h
+      simp only [List.foldl_cons]
+      apply ih
+      unfold floorStep
+      simp only
+      split
+      · cases hq : fb t with
+        | some d => simp only; exact wm_told h t true (hfb t d hq)
+        | none =>
+          simp only
+          by_cases hn : acc.1.g.n > 0
+          · simp only [hn, if_true]
+            have : 0 < n := by rw [← h.hn]; exact hn
+            exact wm_told h t true this
+          · simp only [hn, if_false]
+            exact h
+      · exact h
+  exact key (List.range 6) (w, []) hw
+
+theorem wm_new (n : Nat) (tol : Int) (offs : Nat → Int) (p : Policy) (fi : Int)
+    (alive : Nat → Nat → Bool) (colls : Nat → Nat → Coll) (pens : Nat → Nat → Int) :
+    WM n (worldNew n tol offs p fi alive colls pens) := by
+  obtain ⟨h0, n0⟩ := gminv_gNew n tol offs p fi alive (fun t d => (colls t d).snapshot p (pens t d))
+  exact ⟨h0, agree_gNew _ _ _ _ _ _ _, n0⟩
+
+/-- the captured fallback names members -/
+theorem captureFallback_lt {n : Nat} {w : World} (hw : WM n w) (rnd : Nat → Nat → Nat → Nat → Nat)
+    (hp : w.g.policy ≠ .fixed) (t d : Nat) (h : captureFallback rnd w.g t = some d) : d < n := by
+  unfold captureFallback at h
+  cases hs : select (rnd t) w.g (stdType t) false none with
+  | error e => rw [hs] at h; cases h
+  | ok x =>
+    rw [hs] at h
+    simp only [Option.some.injEq] at h
+    subst h
+    rcases select_ok hp (fun ty => (hw.gm.sets ty).1.bestIn) hs with ⟨ty, _, ⟨e, he, hed⟩, _⟩ | ⟨hstr, _⟩
+    · obtain ⟨hmi, hnn⟩ := hw.gm.sets ty.index
+      obtain ⟨hlt, _⟩ := idx_of_mem hmi.idx he
+      rw [hnn, hw.hn, hed] at hlt
+      exact hlt
+    · cases hstr
+
+
+/-- world histories with reload: every event names a member, samples are ≥ 1 ns, and a restore
+satisfies `RestoreOk` in the state in which it happens -/
+def WOk (n : Nat) : World → List WEv → Prop
+  | _, [] => True
+  | w, e :: es =>
+    (match e with
+      | .sample _ d l => d < n ∧ 1 ≤ l
+      | .told _ d _ => d < n
+      | .pen _ _ _ => True
+      | .policy _ _ => True
+      | .restore d cs _ => d < n ∧ RestoreOk w d cs) ∧ WOk n (stepW w e) es
+
+theorem winv_runOk {n : Nat} (h : List WEv) : ∀ (w : World), WInv n w → WOk n w h → WInv n (runW w h) := by
+  induction h with
+  | nil => intro w hw _; exact hw
+  | cons e es ih =>
+    intro w hw ok
+    obtain ⟨ok1, okr⟩ := ok
+    refine ih (stepW w e) ?_ okr
+    cases e with
+    | sample t d l => exact winv_step hw ⟨ok1.1, ok1.2, trivial⟩
+    | told t d a => exact winv_step hw ⟨ok1, trivial⟩
+    | pen t d v => exact winv_step (e := .pen t d v) hw trivial
+    | policy p fi => exact winv_step (e := .policy p fi) hw trivial
+    | restore d cs al => exact winv_restore hw ok1.1 cs al ok1.2
+
+/-- a restore onto a dialer for which no set has recorded a latency (a fresh generation) is fine -/
+theorem restoreOk_of_unrecorded (w : World) (d : Nat) (cs : Nat → Coll)
+    (h : ∀ t, t < 6 → (w.g.sets t).lat d = none) : RestoreOk w d cs := by
+  intro _ t ht hl
+  exact absurd (h t ht) hl
+
+theorem wm_run {n : Nat} (h : List WEv) : ∀ (w : World), WM n w → (∀ e ∈ h, WMem n e) → WM n (runW w h) := by
+  induction h with
+  | nil => intro w hw _; exact hw
+  | cons e es ih =>
+    intro w hw hm
+    exact ih (stepW w e) (wm_step hw (hm e (by simp))) (fun e' he' => hm e' (by simp [he']))
 
 end DaeVerif.C15
